@@ -18,7 +18,7 @@ ASSUMPTIONS = ["as C02"]
 def cases(rng, tier):
     thorough = tier == "thorough"
     for i in range(4000 if thorough else 250):
-        prog = L.rand_program(rng)
+        prog = L.rand_program(rng, maxdepth_cap=4)
         cyc = L.has_cycle(prog)
         base = [0, 20 * rng.randint(0, 60), 20 * rng.randint(0, 200) + rng.choice([0, 1, 10]), rng.randint(0, 9000)]
         base[3] = base[1] if rng.random() < 0.5 else base[3]     # a repeated instant
@@ -29,8 +29,12 @@ def cases(rng, tier):
         for pm in perms:
             q = ",".join(rng.choice("ccps") + str(base[k]) for k in pm)
             yield ("light h %s %s" % (hexs(prog), q), "perm4")
+    for label, prog in L.special_programs(rng, thorough, deep=False):
+        ts = L.probe_times(rng, 12, cyclic=True)
+        seq = [rng.choice("cccps") + str(rng.choice(ts)) for _ in range(24)]
+        yield ("light h %s %s" % (hexs(prog), ",".join(seq)), label)
     for i in range(8000 if thorough else 700):
-        prog = L.rand_program(rng)
+        prog = L.rand_program(rng, maxdepth_cap=4)
         cyc = L.has_cycle(prog)
         ts = L.probe_times(rng, 12, cyclic=cyc)
         seq = []
